@@ -93,6 +93,9 @@ func mutateB64(r *common.Rand, s string) string {
 }
 
 func runCodec(r *common.Rand) {
+	if wedged >= 3 {
+		return
+	}
 	for _, u := range partPool {
 		for _, p := range partPool[:12] {
 			codecEncode(u, p)
